@@ -3,6 +3,8 @@
 package main
 
 import (
+	"bytes"
+	"encoding/hex"
 	"fmt"
 	"strings"
 	"sync"
@@ -74,10 +76,19 @@ type tBatch struct{ live, idx, hasRange, buf bool }
 type tIter struct {
 	live, valid, orphan bool
 	origin              string
+	prefix              []byte // NewIterator(prefix, ub)
+	ub                  bool
+}
+
+// tLayer: a db.BufferBatch / db.SyncBatch made by lnew; base = the batch at the bottom of its chain
+type tLayer struct {
+	ok   bool
+	base int
 }
 
 type tracker struct {
 	open    bool
+	layers  []tLayer
 	batches []tBatch
 	snaps   []int // 0 = no such handle (creation failed), 1 = live, 2 = closed
 	iters   []tIter
@@ -155,6 +166,13 @@ func (t *tracker) documented(o Op) bool {
 	if t.bufOther(o) {
 		return true // (mirrors `xdocumented` of the driver)
 	}
+	if isLayerOp(o) {
+		// (mirrors `sdocumented` / `ldocumented`: the predicate of the same call on the batch at the bottom)
+		if o.K == "lnew" || o.K == "lflush" || o.H < 0 || o.H >= len(t.layers) || !t.layers[o.H].ok {
+			return true
+		}
+		return t.documented(baseOpOf(o, t.layers[o.H].base))
+	}
 	switch o.K {
 	case "get", "has", "iter", "scan", "rscan":
 		return t.srcOK(o.Src)
@@ -209,6 +227,20 @@ func (t *tracker) comparable(o Op) bool {
 // after: bookkeeping once the op ran; ref = what the reference backend (pebble v2) answered.
 func (t *tracker) after(o Op, documented bool, ref string) {
 	switch o.K {
+	case "lnew":
+		l := tLayer{}
+		if h, ok := handleOf(o.Src, 'b'); ok {
+			l = tLayer{ok: h < len(t.batches), base: h}
+		} else if h, ok := handleOf(o.Src, 'l'); ok && h < len(t.layers) {
+			l = t.layers[h]
+		}
+		t.layers = append(t.layers, l)
+	case "lwrite", "lclose", "ldelrange":
+		// the call reached the batch at the bottom iff it answered ok (a buffer on the way panics on
+		// DeleteRange; a failed Flush or a closed batch / store leaves the batch as it was)
+		if o.H >= 0 && o.H < len(t.layers) && t.layers[o.H].ok && ref == "ok" {
+			t.after(baseOpOf(o, t.layers[o.H].base), documented, ref)
+		}
 	case "newbatch":
 		t.batches = append(t.batches, tBatch{live: true, idx: o.Idx, buf: o.Idx && o.Wrap == "buffer"})
 	case "bdelrange":
@@ -242,7 +274,7 @@ func (t *tracker) after(o Op, documented bool, ref string) {
 			t.snaps[o.H] = 2
 		}
 	case "iter":
-		t.iters = append(t.iters, tIter{live: strings.HasPrefix(ref, "h:"), origin: o.Src})
+		t.iters = append(t.iters, tIter{live: strings.HasPrefix(ref, "h:"), origin: o.Src, prefix: o.Key, ub: o.U})
 	case "first", "next", "prev", "seek":
 		if o.H < len(t.iters) && t.iters[o.H].live {
 			t.iters[o.H].valid = !strings.HasSuffix(ref, "invalid") && strings.Contains(ref, "=")
@@ -349,7 +381,7 @@ func askDeadline(d *lib.Driver, l string) (out string, err error) {
 // mayCommit: ops after which the store may hold something else than before
 func mayCommit(o Op) bool {
 	switch o.K {
-	case "put", "del", "delrange", "bwrite", "update", "getw", "xupdate", "bflush", "reopen", "flush", "crash":
+	case "put", "del", "delrange", "bwrite", "update", "getw", "xupdate", "bflush", "reopen", "flush", "crash", "lwrite", "lflush":
 		return true
 	}
 	return false
@@ -433,6 +465,20 @@ func (rn *Runner) Run(given []Op) (*SeqResult, error) {
 			w.name = "memory with plain batches"
 			plain = w
 			defer plain.Dispose()
+			break
+		}
+	}
+	// Stacks of wrappers: the same sequence with the reference semantics of the wrappers (stack.go)
+	var seq *World
+	for _, o := range given {
+		if o.K == "lnew" {
+			w, err := NewWorld(memoryBackend())
+			if err != nil {
+				return nil, fmt.Errorf("open memory (sequential application): %w", err)
+			}
+			w.name, w.seq = "sequential application on memory", true
+			seq = w
+			defer seq.Dispose()
 			break
 		}
 	}
@@ -541,6 +587,24 @@ func (rn *Runner) Run(given []Op) (*SeqResult, error) {
 					OutA: outs[a], OutB: outs[b], ModelOf: model})
 			}
 		}
+		// 2b. iteration under a prefix, decided on each backend by itself (all three build the bound with the same
+		// dbutils.UpperBound, so a defect there is invisible backend against backend): a bounded scan yields
+		// exactly the entries of the unbounded scan of the same source whose key has the prefix, and a bounded
+		// iterator is never positioned on a key without the prefix
+		if cmp && !stopped["prefix"] {
+			for bi, w := range ws {
+				d, applied := prefixOracle(w, tr, o, outs[bi])
+				if d != nil {
+					d.At, d.Op = orig[i], lines([]Op{given[orig[i]]})[0]
+					sr.Divs = append(sr.Divs, *d)
+					stopped["prefix"] = true
+					break
+				}
+				if applied {
+					sr.Compared++
+				}
+			}
+		}
 		// 3. wrapped against plain
 		if plain != nil {
 			skip := false
@@ -574,6 +638,22 @@ func (rn *Runner) Run(given []Op) (*SeqResult, error) {
 				}
 			}
 		}
+		// 4. stacks of wrappers against the sequential application of the same calls
+		if seq != nil {
+			qout := seq.Exec(o)
+			if cmp && !stopped["seq"] && outs[0] != "poisoned" && qout != "poisoned" {
+				sr.Compared++
+				if qout != outs[0] {
+					opText := lines([]Op{given[orig[i]]})[0]
+					if o.probe != "" {
+						opText = "content of the store after " + opText
+					}
+					sr.Divs = append(sr.Divs, Divergence{Sig: "layered-batches-differ-from-sequential-application:" + kind, A: "memory", B: seq.name,
+						At: orig[i], Op: opText, OutA: outs[0], OutB: qout})
+					stopped["seq"] = true
+				}
+			}
+		}
 		tr.after(o, doc, outs[2])
 	}
 	return sr, nil
@@ -599,7 +679,7 @@ func hasSig(sr *SeqResult, sig string) *Divergence {
 	return nil
 }
 
-func createsHandle(o Op) bool { return o.K == "iter" || o.K == "newbatch" || o.K == "snap" }
+func createsHandle(o Op) bool { return o.K == "iter" || o.K == "newbatch" || o.K == "snap" || o.K == "lnew" }
 
 // shrink removes ops (never handle-creating ones: handles are numbered by creation order) while
 // the same Sig still shows up.
@@ -670,4 +750,82 @@ func (rn *Runner) account(res *lib.Result, ops []Op, sr *SeqResult) {
 		}
 		res.Violate(lib.Violation{Sig: d.Sig, What: what, Replay: rp})
 	}
+}
+
+// parseEntries: the entries of a scan output "[k=v,k=v,...]" (hex, "-" = empty)
+func parseEntries(out string) (keys [][]byte, entries []string, ok bool) {
+	if len(out) < 2 || out[0] != '[' || out[len(out)-1] != ']' {
+		return nil, nil, false
+	}
+	if out == "[]" {
+		return nil, nil, true
+	}
+	for _, e := range strings.Split(out[1:len(out)-1], ",") {
+		kv := strings.SplitN(e, "=", 2)
+		if len(kv) != 2 {
+			return nil, nil, false
+		}
+		var key []byte
+		if kv[0] != "-" {
+			b, err := hex.DecodeString(kv[0])
+			if err != nil {
+				return nil, nil, false
+			}
+			key = b
+		}
+		keys, entries = append(keys, key), append(entries, e)
+	}
+	return keys, entries, true
+}
+
+// prefixOracle: see step 2b of Run. The unbounded scan is made right here, on the same source (read-only).
+func prefixOracle(w *World, tr *tracker, o Op, out string) (*Divergence, bool) {
+	switch o.K {
+	case "scan", "rscan", "lscan":
+		if !o.U || out == "poisoned" {
+			return nil, false
+		}
+		_, got, ok := parseEntries(out)
+		if !ok {
+			return nil, false // an error answer (compared backend against backend)
+		}
+		full := o
+		full.K, full.Key, full.U, full.probe = "scan", nil, false, ""
+		if o.K == "lscan" {
+			full.K = "lscan"
+		}
+		fout := w.Exec(full)
+		fkeys, fentries, ok := parseEntries(fout)
+		if !ok {
+			return &Divergence{Sig: "bounded-scan-differs-from-the-keys-with-the-prefix", A: w.name, B: w.name + ": unbounded scan of the same source",
+				OutA: out, OutB: fout}, true
+		}
+		var want []string
+		for i, k := range fkeys {
+			if bytes.HasPrefix(k, o.Key) && (o.K != "rscan" || bytes.Compare(k, o.Key2) < 0) {
+				want = append(want, fentries[i])
+			}
+		}
+		if o.K == "rscan" {
+			for i, j := 0, len(want)-1; i < j; i, j = i+1, j-1 {
+				want[i], want[j] = want[j], want[i]
+			}
+		}
+		if strings.Join(got, ",") != strings.Join(want, ",") {
+			return &Divergence{Sig: "bounded-scan-differs-from-the-keys-with-the-prefix", A: w.name,
+				B: w.name + ": entries of its unbounded scan whose key has the prefix", OutA: out, OutB: "[" + strings.Join(want, ",") + "]"}, true
+		}
+		return nil, true
+	case "first", "next", "prev", "seek":
+		if o.H < 0 || o.H >= len(tr.iters) || !tr.iters[o.H].live || !tr.iters[o.H].ub || !strings.HasPrefix(out, "T ") {
+			return nil, false
+		}
+		keys, _, ok := parseEntries("[" + out[2:] + "]")
+		if ok && len(keys) == 1 && !bytes.HasPrefix(keys[0], tr.iters[o.H].prefix) {
+			return &Divergence{Sig: "bounded-iterator-positioned-on-a-key-without-the-prefix", A: w.name,
+				B: "prefix " + hx(tr.iters[o.H].prefix), OutA: out, OutB: "a key with the prefix, or invalid"}, true
+		}
+		return nil, true
+	}
+	return nil, false
 }
